@@ -269,6 +269,48 @@ def part_b(ctx):
             ctx.fail(doc, dict(summary=str(gts)), "GT summary does not bound the stored allele indexes")
     finally:
         shutil.rmtree(d0, ignore_errors=True)
+    # more than ten partitions of unequal size on different contigs (two-digit partition numbers): record
+    # count, whole columns and every range against the single-partition store
+    for rep in range(ctx.n(1, 4)):
+        dm = os.path.join(ctx.work, f"c08b_many{rep}")
+        os.makedirs(dm)
+        try:
+            nc = r.randint(12, 15)
+            hdr = [f"##contig=<ID=m{j},length=10000000>" for j in range(nc)] + ['##FILTER=<ID=PASS,Description="p">',
+                   '##INFO=<ID=DP,Number=1,Type=Integer,Description="d">', '##FORMAT=<ID=GT,Number=1,Type=String,Description="g">']
+            recs = []
+            for j in range(nc):
+                for i2 in range(r.randint(2, 9)):
+                    recs.append(f"m{j}\t{1000 * (j + 1) + 10 * i2}\t.\tA\tT\t.\tPASS\tDP={r.randint(1, 30000)}\tGT\t{r.choice(['0/1', '1|1', './.'])}")
+            pm = vcfgen.make_indexed(dm, "many", vcfgen.vcf_text(hdr, recs, ("S0",)), kind=r.choice(["tbi", "csi"]))
+            vcf2zarr.explode(os.path.join(dm, "ref.icf"), [pm], worker_processes=0)
+            refm = icf_mod.IntermediateColumnarFormat(os.path.join(dm, "ref.icf"))
+            ref_dump = field_dump(refm)
+            pipeline.dexplode(os.path.join(dm, "d.icf"), [pm], target_num_partitions=40, order="shuffle", rnd=r)
+            stm = icf_mod.IntermediateColumnarFormat(os.path.join(dm, "d.icf"))
+            doc = dict(part="e2e", special="many partitions", contigs=nc, records=len(recs), partitions=stm.num_partitions)
+            ctx.case(doc, nontrivial=True)
+            ctx.count("e2e-many-partitions")
+            n = refm.num_records
+            if stm.num_records != n or n != len(recs):
+                ctx.fail(doc, dict(num_records=stm.num_records, n=len(recs)), "record count of the store differs from the number of input records")
+            if field_dump(stm) != ref_dump:
+                ctx.fail(doc, {}, "store contents depend on partitioning / chunking")
+            for name in ("POS", "INFO/DP", "CHROM"):
+                fld = stm.fields[name]
+                rs = r.sample([(a, b) for a in range(n) for b in range(a + 1, n + 1)], 80)
+                for a, b in rs:
+                    try:
+                        g = [canon(v) for v in fld.iter_values(a, b)]
+                    except Exception as e:  # noqa: BLE001
+                        g = f"{type(e).__name__}: {e}"[:200]
+                    if g != ref_dump[name][a:b]:
+                        ctx.fail(dict(doc, field=name, range=[a, b]), dict(got=str(g)[:300]), f"range read [{a},{b}) of {name} differs from the column slice")
+                        break
+            summary_check(ctx, doc, stm)
+            ctx.traces_validated += 1
+        finally:
+            shutil.rmtree(dm, ignore_errors=True)
     for i in range(ctx.n(8, 120)):
         seed = ctx.seed * 7919 + 1000 + i
         case = absvcf.gen_case(seed)
